@@ -50,22 +50,37 @@ fn norm_addr(a: usize) -> usize {
     }
 }
 
+/// tracked ids of the values that were reachable through a handle returned to a racer
+static REACHED: std::sync::Mutex<Vec<u64>> = std::sync::Mutex::new(Vec::new());
+fn hl(h: &assets_manager::Handle<L>) -> usize {
+    // read first (a scheduling point), then take the plain mutex: never hold it across a point
+    let id = h.read().t.0;
+    REACHED.lock().unwrap().push(id);
+    h as *const _ as usize
+}
+fn hv(h: &assets_manager::Handle<V>) -> usize {
+    // read first (a scheduling point), then take the plain mutex: never hold it across a point
+    let id = h.read().t.0;
+    REACHED.lock().unwrap().push(id);
+    h as *const _ as usize
+}
+
 fn run_op(cache: &AssetCache<Mem>, any: bool, op: &str, tid: usize, i: usize) -> String {
     let start = ds::now();
     let val = 100 * (tid as i64 + 1) + i as i64;
     let r = match (op, any) {
-        ("load", false) => cache.load::<L>("k").map(|h| h as *const _ as usize).ok(),
-        ("load", true) => cache.as_any_cache().load::<L>("k").map(|h| h as *const _ as usize).ok(),
-        ("goiL", false) => Some(cache.get_or_insert::<L>("k", L::from(val)) as *const _ as usize),
-        ("goiL", true) => Some(cache.as_any_cache().get_or_insert::<L>("k", L::from(val)) as *const _ as usize),
-        ("goiV", false) => Some(cache.get_or_insert::<V>("k", V { v: val, t: Tracked::new() }) as *const _ as usize),
-        ("goiV", true) => Some(cache.as_any_cache().get_or_insert::<V>("k", V { v: val, t: Tracked::new() }) as *const _ as usize),
-        ("cached", false) => cache.get_cached::<L>("k").map(|h| h as *const _ as usize),
-        ("cached", true) => cache.as_any_cache().get_cached::<L>("k").map(|h| h as *const _ as usize),
-        ("cachedV", _) => cache.get_cached::<V>("k").map(|h| h as *const _ as usize),
+        ("load", false) => cache.load::<L>("k").map(hl).ok(),
+        ("load", true) => cache.as_any_cache().load::<L>("k").map(hl).ok(),
+        ("goiL", false) => Some(hl(cache.get_or_insert::<L>("k", L::from(val)))),
+        ("goiL", true) => Some(hl(cache.as_any_cache().get_or_insert::<L>("k", L::from(val)))),
+        ("goiV", false) => Some(hv(cache.get_or_insert::<V>("k", V { v: val, t: Tracked::new() }))),
+        ("goiV", true) => Some(hv(cache.as_any_cache().get_or_insert::<V>("k", V { v: val, t: Tracked::new() }))),
+        ("cached", false) => cache.get_cached::<L>("k").map(hl),
+        ("cached", true) => cache.as_any_cache().get_cached::<L>("k").map(hl),
+        ("cachedV", _) => cache.get_cached::<V>("k").map(hv),
         ("contains", false) => cache.contains::<L>("k").then_some(1),
         ("contains", true) => cache.as_any_cache().contains::<L>("k").then_some(1),
-        ("loadj", _) => cache.load::<L>("j").map(|h| h as *const _ as usize).ok(),
+        ("loadj", _) => cache.load::<L>("j").map(hl).ok(),
         _ => panic!("bad op {op}"),
     };
     let end = ds::now();
@@ -86,6 +101,7 @@ pub fn mk_race(p: &Value) -> Arc<Mk> {
             ahash::stub_set_seed(seed);
             ledger_reset();
             ADDRS.lock().unwrap().clear();
+            REACHED.lock().unwrap().clear();
             let m = Mem::new(true);
             m.put("k", "l", "1");
             m.put("j", "l", "2");
@@ -116,6 +132,10 @@ pub fn mk_race(p: &Value) -> Arc<Mk> {
             ds::log(format!("final L={lv:?} V={vv:?} lval={}", lv.map(|x| x.1).unwrap_or(1)));
             let expect_live = lv.is_some() as usize + vv.is_some() as usize + cache.contains::<L>("j") as usize;
             ds::log(format!("ledger live={} expect={} double={}", ledger_live().len(), expect_live, ledger_double().len()));
+            // a value that was handed out through a handle must still be alive while the cache is borrowed
+            let live = ledger_live();
+            let dead = REACHED.lock().unwrap().iter().filter(|id| !live.contains(id)).count();
+            ds::log(format!("reachable dead={dead}"));
             if hot {
                 ds::quiesce();
             }
@@ -150,6 +170,10 @@ pub fn judge_race(r: &ds::RunResult) -> Option<(String, String)> {
             }
             if f("live=") != f("expect=") {
                 return Some(("loser-not-dropped".into(), format!("after the race exactly one value per entry must be alive: {l}")));
+            }
+        } else if let Some(rest) = l.strip_prefix("reachable ") {
+            if rest != "dead=0" {
+                return Some(("reachable-value-dropped".into(), format!("a value reachable through a returned handle was dropped while the cache was still shared-borrowed ({rest})")));
             }
         } else if let Some(rest) = l.strip_prefix("after-drop ") {
             if rest != "live=0 double=0" {
